@@ -27,7 +27,9 @@ RULE = (
     "a in {0,.3,.9,.995,1,1.005,1.1,1.9,2,2.1,15,40} so that cluster norms are packed within fractions of tol "
     "(distinct clusters >= 10 tol apart, verified), optional cluster at the origin, 1..4 members per cluster at "
     "centre + e*tol/600, e in {-3..3}^dim (diameter <= tol/57, exact duplicates included), members interleaved "
-    "by a drawn permutation, C / F memory layout. Oracle: labels by construction -> one output point per cluster, "
+    "by a drawn permutation, C / F memory layout; one third of these sets instead put 2..6 clusters on one circle "
+    "around the origin (1-d: +-sep/2) with radii equal up to 0.6 tol and neighbour separation min(m*tol, R0/4), m "
+    "log-spaced in 12..1e4 (pairs between tol and sqrt(tol) apart with equal norms). Oracle: labels by construction -> one output point per cluster, "
     "bitwise equal to the first-occurring member, ordered by first occurrence, new_2_old / old_2_new exact; "
     "fracs.utils.uniquify_points additionally maps edges and deletes point edges; intersect_sets on members split "
     "into two sets = same-cluster relation. (uniquify_int) integer columns, tol < 0.5 = first-occurrence unique "
@@ -55,7 +57,7 @@ FNS = ["uniquify", "uniquify_points", "uniquify_int", "ismember", "intersect_int
 REQUIRED = {f: 0.08 for f in FNS}
 REQUIRED.update({"close-norms": 0.15, "interleaved": 0.15, "dim1": 0.05, "dim2": 0.1, "dim3": 0.1,
                  "first-not-smallest-norm": 0.05, "ismember-sort": 0.03, "ismember-nosort": 0.03,
-                 "ismember-1d": 0.01})
+                 "ismember-1d": 0.01, "equal-norm-clusters": 0.08, "separation-below-sqrt-tol": 0.04})
 
 TOLS = [1e-8, 1e-6, 1e-4, 1e-3, 1e-2]
 A_NEAR = [0.0, 0.0, 0.3, 0.9, 0.995, 1.0, 1.0, 1.0, 1.005, 1.1, 1.9, 2.0, 2.0, 2.1]
@@ -81,11 +83,35 @@ NDIR = {1: 2, 2: 12, 3: 26}
 
 
 # ----------------------------------------------------------------------------- strategies
+SEP_MULT = [12, 30, 100, 300, 1000, 3000, 10000]
+A_SPHERE = [0.0, 0.0, 0.0, 0.2, -0.2, 0.4]
+LATITUDES = [0.0, 0.5, 1.0]
+
+
+@st.composite
+def _sphere_spec(draw, dim, tol, R0):
+    """Clusters whose centres have (nearly) equal norm: positions on one arc of a circle around the origin
+    (1-d: +-sep/2), neighbouring positions `sep` apart, sep = min(m * tol, R0 / 4), m log-spaced in 12..1e4."""
+    npos = 2 if dim == 1 else 6
+    ncl = draw(st.integers(2, npos))
+    pos = draw(st.lists(st.integers(0, npos - 1), min_size=ncl, max_size=ncl, unique=True))
+    offs = st.lists(st.integers(-3, 3), min_size=dim, max_size=dim)
+    clusters = [{"dir": k, "a": draw(st.sampled_from(A_SPHERE)), "members": draw(st.lists(offs, min_size=1, max_size=4))}
+                for k in pos]
+    n = sum(len(c["members"]) for c in clusters)
+    return {"dim": dim, "tol": tol, "R0": R0, "clusters": clusters, "order": list(draw(st.permutations(list(range(n))))),
+            "layout": draw(st.sampled_from(["C", "F"])),
+            "sphere": {"m": draw(st.sampled_from(SEP_MULT)), "lat": draw(st.integers(0, len(LATITUDES) - 1)),
+                       "theta0": draw(st.integers(0, 11))}}
+
+
 @st.composite
 def _cluster_spec(draw, min_dim=1):
     dim = draw(st.integers(min_dim, 3))
     tol = draw(st.sampled_from(TOLS))
     R0 = draw(st.sampled_from([0.5, 1.0, 1.0, 3.0, 10.0]))
+    if draw(st.sampled_from([False, False, True])):
+        return draw(_sphere_spec(dim, tol, R0))
     ncl = draw(st.integers(1, 6 if dim > 1 else 5))
     keys = draw(st.lists(st.tuples(st.integers(0, NDIR[dim] - 1), st.sampled_from(["near", "near", "near", "far0", "far1"])),
                          min_size=ncl, max_size=ncl, unique=True))
@@ -156,9 +182,24 @@ def _build(s):
     """-> (points (dim, n) float64 in the drawn order, labels (n,) int)."""
     dim, tol, R0 = s["dim"], s["tol"], s["R0"]
     dirs = _directions(dim)
+    sph = s.get("sphere")
+    if sph is not None:
+        sep = min(sph["m"] * tol, R0 / 4.0)
+        lat = LATITUDES[sph["lat"]] if dim == 3 else 0.0
+        delta = 2.0 * math.asin(sep / (2.0 * R0 * math.cos(lat))) if dim > 1 else 0.0
+        theta0 = math.radians(7 + 30 * sph["theta0"])
     pts, lab = [], []
     for k, c in enumerate(s["clusters"]):
-        centre = np.zeros(dim) if c["dir"] < 0 else (R0 + c["a"] * tol) * dirs[c["dir"]]
+        if sph is not None:
+            if dim == 1:
+                centre = np.array([(1.0 if c["dir"] == 0 else -1.0) * (sep / 2.0 + c["a"] * tol)])
+            else:
+                th = theta0 + c["dir"] * delta
+                r = R0 + c["a"] * tol
+                u = [math.cos(lat) * math.cos(th), math.cos(lat) * math.sin(th)] + ([math.sin(lat)] if dim == 3 else [])
+                centre = r * np.array(u)
+        else:
+            centre = np.zeros(dim) if c["dir"] < 0 else (R0 + c["a"] * tol) * dirs[c["dir"]]
         for e in c["members"]:
             pts.append(centre + np.array(e, dtype=float) * (tol / 600.0))
             lab.append(k)
@@ -260,6 +301,16 @@ def check(s):
             labels.append("close-norms")
         if _norm_straddle(P, L, tol):
             labels.append("norm-straddle")
+        if s.get("sphere") is not None:
+            labels.append("equal-norm-clusters")
+            first_of = [np.where(L == c)[0][0] for c in sorted(set(L.tolist()))]
+            C = P[:, first_of]
+            D2 = ((C[:, :, None] - C[:, None, :]) ** 2).sum(axis=0)
+            iu = np.triu_indices(len(first_of), 1)
+            if np.any(D2[iu] < tol):
+                labels.append("separation-below-sqrt-tol")
+            if np.any(D2[iu] < 4 * tol ** 2 * 1e4):
+                labels.append("separation-below-200tol")
         if np.any(np.diff(L) != 0) and any(np.any(np.diff(np.where(L == c)[0]) > 1) for c in set(L.tolist())):
             labels.append("interleaved")
         first, o2n_exp = _expected_partition(L)
